@@ -276,6 +276,43 @@ def _brace_block(forest, ind, level, out, stmt_end, secret):
             out.append(ind * level + r + stmt_end)
 
 
+def _brace_block_alt(forest, ind, level, out, stmt_end):
+    """the same tree as a device may also print it: a childless row as an EMPTY BLOCK on one line ('row { }' and 'row {}',
+    alternating), and a tab-separated remark after an opening or closing brace ('row {<TAB># remark') - the two spellings the
+    brace formatters' split() is written to read (its 'collapse empty blocks' and '(\t# .+)?' substitutions)"""
+    n = 0
+    for r, c in forest:
+        if r.startswith("/*"):
+            import json
+            out.append(ind * level + "/* %s */" % json.loads(r[2:-2])["comment"])
+        elif c:
+            out.append(ind * level + r + " {\t# remark")
+            _brace_block_alt(c, ind, level + 1, out, stmt_end)
+            out.append(ind * level + "}\t# remark")
+        else:
+            n += 1
+            out.append(ind * level + r + (" { }" if n % 2 else " {}"))
+
+
+def dev_juniper_alt(forest):
+    out = ["## Last commit: 2021-01-01 00:00:00 UTC by root"]
+    _brace_block_alt(forest, "    ", 0, out, ";")
+    return "\n".join(out) + "\n"
+
+
+def dev_ribbon_alt(forest):
+    out = []
+    _brace_block_alt(forest, "    ", 0, out, ";")
+    return "\n".join(out) + "\n"
+
+
+def dev_nokia_alt(forest):
+    out = ["# TiMOS-B-21.2.R1 both/hops64 Nokia 7750 SR", "", "configure {"]
+    _brace_block_alt(forest, "    ", 1, out, "")
+    out += ["}"]
+    return "\n".join(out) + "\n"
+
+
 def dev_juniper(forest):
     out = ["## Last commit: 2021-01-01 00:00:00 UTC by root"]
     _brace_block(forest, "    ", 0, out, ";", True)
@@ -333,6 +370,9 @@ def canonical_text(family, forest, indent):
         _plain(forest, indent, 0, out)
     return "\n".join(out)
 
+
+# further device spellings of the same tree (each must parse to the tree as well)
+DEVICE_PRINTER_ALT = {"juniper": [dev_juniper_alt], "ribbon": [dev_ribbon_alt], "nokia": [dev_nokia_alt]}
 
 DEVICE_PRINTER = {
     "pc": dev_common, "optixtrans": dev_common,
